@@ -42,6 +42,12 @@ def to_image(cap):
     sections, le, addr, arch, addresses = cap.payload
     cls = 64 if addr == 8 else 32
     secs = {k: v for k, v in sections.items() if v is not None}
+    if '.debug_info' not in secs and any(k.startswith('.debug_') for k in secs):
+        # the clone dumps DWARF sections only for files that have a .debug_info section: give bare tables a minimal unit
+        from mcx import dwarfgen as dg
+        from mcx.dwarfgen import DP, Abbrev, Die, Unit, TAG, AT, F
+        mini = dg.Assembly([Unit(DP(le, 32, addr, 4), Die(Abbrev(1, TAG['compile_unit'], False, [(AT['name'], F['string'], None)]), [b'a.c']))], le=le).assemble()
+        secs['.debug_info'], secs['.debug_abbrev'] = mini['.debug_info'], mini['.debug_abbrev']
     data, _ = elfwrap.wrap(secs, cls, le, machine=62 if cls == 64 else 3, etype=2, addresses=addresses)
     return data, list(secs)
 
@@ -95,6 +101,27 @@ def run_generated(ch):
 
 # ---- line programs and call-frame tables (bulk families of C05 / C06) ------------------------------------------
 
+CFI_NOT_SUPPORTED = ('val_offset', 'val_offset_sf', 'val_expression', 'negate_ra_state')      # each is a recorded finding of the description-table space
+
+
+def _cfi_in_envelope(d):
+    """What compilers emit and the clone claims: a CIE that defines the CFA by register, operations the clone renders like GNU
+    (the others are findings of space 2), registers the architecture table names."""
+    if d['prologue'] != 'default':
+        return False
+    if d['shape'].get('order') in ('CFCF', 'C1C2F1F2', 'FC'):
+        return False        # second CIEs reuse the probed sequence as their initial instructions; FDE before its CIE is GNU readelf bug #31973 (the project documents it)
+    if d['shape'].get('ra', 16) > 66:
+        return False
+    for ins in d['seq']:
+        if ins[0] in CFI_NOT_SUPPORTED:
+            return False
+        if ins[0] not in ('def_cfa_offset', 'def_cfa_offset_sf', 'advance_loc', 'advance_loc1', 'advance_loc2', 'advance_loc4', 'set_loc', 'GNU_args_size', 'def_cfa_expression') \
+                and len(ins) > 1 and isinstance(ins[1], int) and ins[1] > 66:
+            return False
+    return True
+
+
 def _lc_gen(tier):
     from mcx.props import c05, c06
     quick = tier == 'quick'
@@ -108,10 +135,14 @@ def _lc_gen(tier):
             yield ['line', desc]
         for d in c06._cases('quick'):
             n = len(d['seq'])
+            if not _cfi_in_envelope(d):
+                continue
             if d['kind'] == 'debug':
                 if n > (1 if quick else 2) or d['param'] not in ((0,) if quick else (0, 7)):
                     continue
             else:
+                if any((d['shape'].get(k, 0) & 0x0f) in (0x01, 0x09) for k in ('fde_enc', 'lsda_enc', 'pers_enc')):
+                    continue        # oracle limitation: GNU readelf 2.40 reads LEB128-encoded .eh_frame pointers as fixed-size fields
                 if quick and n > 0:
                     continue
                 if n and (d['param'] != 0 or d['address'] != 0x1000):
@@ -128,7 +159,8 @@ def _lc_check(item):
         cap = capture.grab(c05.check_case, V[d['header']], tuple(d['seq']), d['param'], d['swap'])
         opts = ['--debug-dump=decodedline']
     else:
-        cap = capture.grab(c06._run_desc, d)
+        # state changes follow an advance (as in compiled code) and are followed by one, so that every change shows in a row of its own
+        cap = capture.grab(c06._run_desc, dict(d, seq=[['advance_loc', 4]] + list(d['seq']) + [['advance_loc', 2]]))
         opts = ['--debug-dump=frames', '--debug-dump=frames-interp']
     if cap is None:
         return [], False, 'no-image', repr(item).encode(), True
@@ -147,6 +179,7 @@ def spaces(tier, seed):
                          'C09 (dynamic section: -d), C14 (notes: -n), C15 (version sections: -V), C20 (ARM/RISC-V attributes: --arch-specific), C04 (DIE trees: info), C07 (location / range lists: loc, Ranges), '
                          'C13 (aranges, pubnames, pubtypes) under THEIR choice points with at most k deviations from each generator\'s default image; generator x class x byte order fully crossed; '
                          'non-trivial = at least one option compared and matched; outside = every option skipped by the oracle (warning, failure, unknown-value fallback, drift list)')
+    a.report_all = True         # every failing execution reaches the known-finding filter (no per-task cap hides a new violation behind recorded ones)
     b = ListSpace('generated-line-cfi', _lc_gen(tier), _lc_check, nparts=128,
                   rule='C05 line programs: every header variant x opcode sequences of length <= %d (decodedline); C06 call-frame sections: .debug_frame default and 18 shapes x sequences <= %d, '
                        '~80 .eh_frame shapes x 3 section addresses%s (frames, frames-interp); same outside rule' % ((1, 1, '') if tier == 'quick' else (2, 2, ' and x sequences of length 1 at one corner')))
